@@ -204,9 +204,17 @@ func (s *Translator) Enter(expression cypher.SyntaxNode) {
 
 	case *cypher.Parameter:
 		var (
-			cypherIdentifier = pgsql.Identifier(typedExpression.Symbol)
-			binding, bound   = s.scope.AliasedLookup(cypherIdentifier)
+			cypherIdentifier pgsql.Identifier
+			binding          *BoundIdentifier
+			bound            bool
 		)
+
+		// Parameters and variables are separate namespaces in Cypher: $n must not resolve to a variable named n.
+		// The '$' prefix can not appear in an unescaped symbolic name, so it keeps the alias keys apart.
+		if typedExpression.Symbol != "" {
+			cypherIdentifier = pgsql.Identifier("$" + typedExpression.Symbol)
+			binding, bound = s.scope.AliasedLookup(cypherIdentifier)
+		}
 
 		if !bound {
 			if parameterBinding, err := s.scope.DefineNew(pgsql.ParameterIdentifier); err != nil {
